@@ -79,17 +79,26 @@ def _dsl():
 # --------------------------------------------------------------------------------------
 
 class Family:
+    """one harness hierarchy: positions (possibly nested), a palette per position"""
     def __init__(self, name):
         import c15_designs as D
+        d = D.FAMILIES[name]
         self.name = name
-        if name == "RTL":
-            self.top_cls, self.palette, self.positions = D.RtlTop, D.RTL_PALETTE, list(D.RTL_POSITIONS)
-            self.args = D.RTL_K
-        else:
-            self.top_cls, self.palette, self.positions = D.ClTop, D.CL_PALETTE, list(D.CL_POSITIONS)
-            self.args = None
-        self.placeholders = {k for k, c in self.palette.items() if issubclass(c, _dsl().Placeholder)}
-        # longest first so that "d[0][1]" wins over a hypothetical "d[0]"
+        self.top_cls = d["top"]
+        self.positions = list(d["positions"])
+        self.classes = dict(d["classes"])             # class name -> class
+        self.palof = {p: list(d["palof"][p]) for p in self.positions}
+        self.below = {p: list(d["below"].get(p, [])) for p in self.positions}
+        self.nested = [q for p in self.positions for q in self.below[p]]
+        self.hosts = [p for p in self.positions if self.below[p]]
+        self.leaves = [p for p in self.positions if not self.below[p]]
+        self.make = d["make"]
+        self.driver = d["driver"]
+        self.pass_groups = tuple(d["pass_groups"])
+        self.palette = self.classes                   # every class of the family (name -> class)
+        self.placeholders = {k for k, c in self.classes.items() if issubclass(c, _dsl().Placeholder)}
+        self.base = {p: self.palof[p][0] for p in self.positions}
+        # longest first so that "m.g" wins over "m"
         self._bases = sorted((("s." + p, p) for p in self.positions), key=lambda t: -len(t[0]))
 
     def build(self, cfg):
@@ -97,9 +106,49 @@ class Family:
         top.elaborate()
         return top
 
-    def new_obj(self, pos, cls):
-        c = self.palette[cls]
-        return c(self.args[pos]) if self.args else c()
+    def new_obj(self, pos, cls, cfg):
+        """an object built by the caller (replace_component_with_obj); a hosting class is given the
+        classes that sit below it in cfg"""
+        return self.make(pos, cls, cfg)
+
+    def uniform(self, leaf_cls=None, host_cls=None):
+        """configuration with one leaf class everywhere (hosting positions: their base class)"""
+        g = dict(self.base)
+        for p in self.positions:
+            if leaf_cls is not None and leaf_cls in self.palof[p]:
+                g[p] = leaf_cls
+            if host_cls is not None and host_cls in self.palof[p]:
+                g[p] = host_cls
+        return g
+
+    def random_cfg(self, R):
+        return {p: R.choice(self.palof[p]) for p in self.positions}
+
+    def moves(self, positions=None, palette=None):
+        """(position, class) pairs of one step"""
+        return [(p, c) for p in (positions or self.positions) for c in self.palof[p]
+                if palette is None or c in palette]
+
+    # ---- the configuration after a step (mirrors NextCfg / NextArg of Replace.tla)
+    def step(self, cfg, arg, kind, pos, cls):
+        g, a = dict(cfg), dict(arg)
+        g[pos] = cls
+        if kind == "Replace":
+            for q in self.below[pos]:
+                g[q] = arg[q]
+        else:
+            for q in self.below[pos]:
+                a[q] = cfg[q]
+        return g, a
+
+    def init_arg(self, cfg):
+        return {q: cfg[q] for q in self.nested}
+
+    def final_cfg(self, init, steps):
+        g, a = dict(init), self.init_arg(init)
+        for (k, p, c) in steps:
+            g, a = self.step(g, a, k, p, c)
+        return g
 
     # ---- name -> (position tag, suffix)
     def split_name(self, raw):
@@ -534,6 +583,10 @@ def split_parts(T, positions):
             continue
         for e in es:
             t = e[0][0]
+            if f == "mc":                   # M(port) < U(block): declared where the block lives
+                blk = [x for x in e if "::" in x[1]]
+                if blk and not any(x[0] == "?" for x in e):
+                    t = blk[0][0]
             if t not in parts or t == "*":
                 t = "?"
             parts[t].setdefault(f, []).append(relativise(e, t) if t not in ("", "?") else e)
@@ -560,13 +613,17 @@ def collect_removed(comp):
     return out
 
 
-def apply_step(fam, top, kind, pos, cls):
+def apply_step(fam, top, kind, pos, cls, cfg=None, obj=None):
+    """one API call on the real design; cfg = configuration before the step (needed to build the
+    object of replace_component_with_obj for a hosting position); obj = an object built beforehand"""
     comp = component_at(top, pos)
     removed = collect_removed(comp)
     if kind == "Replace":
-        top.replace_component(comp, fam.palette[cls])
+        top.replace_component(comp, fam.classes[cls])
     else:
-        top.replace_component_with_obj(comp, fam.new_obj(pos, cls))
+        if obj is None:
+            obj = fam.new_obj(pos, cls, cfg if cfg is not None else fam.base)
+        top.replace_component_with_obj(comp, obj)
     return removed
 
 
@@ -640,25 +697,77 @@ def rtl_inputs(n, R):
     return [(R.randrange(256), R.randrange(2)) for _ in range(n)]
 
 
-def simulate(fam, top, inputs):
-    """Output trace of the design (the design is consumed: simulation passes are applied to it)."""
-    from pymtl3 import DefaultPassGroup
-    top.apply(DefaultPassGroup())
+PASS_GROUPS = ("DefaultPassGroup", "Mamba2020", "SimpleSimPass")
+
+
+def _pass_group(name):
+    if name == "DefaultPassGroup":
+        from pymtl3 import DefaultPassGroup
+        return DefaultPassGroup()
+    if name == "SimpleSimPass":
+        from pymtl3.passes.PassGroups import SimpleSimPass
+        return SimpleSimPass()
+    from pymtl3.passes.mamba.PassGroups import Mamba2020
+    return Mamba2020(print_line_trace=False)
+
+
+def _val(x):
+    try:
+        return int(x)
+    except (TypeError, ValueError):
+        pass
+    try:
+        return int(x.to_bits())
+    except Exception:          # noqa: BLE001
+        return str(x)
+
+
+def signal_names(top):
+    """names of all signals that are not slices / fields of another signal (public getter)"""
+    D = _dsl()
+    out = []
+    for x in top.get_all_object_filter(lambda o: isinstance(o, D.Signal)):
+        if x._dsl.slice is None and not isinstance(getattr(x._dsl, "parent_obj", None), D.Signal):
+            out.append(repr(x))
+    return sorted(out)
+
+
+def is_pure_rtl(top):
+    D = _dsl()
+    return not top.get_all_object_filter(lambda o: isinstance(o, D.MethodPort)) and not top.get_all_update_once()
+
+
+def simulate(fam, top, inputs, pg="DefaultPassGroup", sigs=(), pure=True):
+    """Trace of the design under one pass group (the design is consumed).  Every row is the list of
+    top-level outputs followed by the value of every signal in `sigs` (looked up by name), so that a
+    register that does not commit, or any other per-signal difference, is seen even when it does not
+    reach an output within the run.  `pure` (no method port, no update_once block - decided on the
+    design built from scratch) selects the driver: combinational evaluation before the clock edge
+    is only offered for pure RTL designs."""
+    top.apply(_pass_group(pg))
     top.sim_reset()
     tr = []
-    if fam.name == "RTL":
+    sobj = [resolve(top, n) for n in sigs]
+
+    def row():
+        return [_val(x) for x in top.out] + [(_val(o) if o is not None else "<missing>") for o in sobj]
+    if fam.driver == "rtl":
         for (a, e) in inputs:
             top.in_ @= a
             top.en @= e
-            top.sim_eval_combinational()
-            tr.append([int(x) for x in top.out])
+            if pure:
+                top.sim_eval_combinational()
+                tr.append(row())
             top.sim_tick()
-        tr.append([int(x) for x in top.out])
+            if not pure:
+                tr.append(row())
+        tr.append(row())
     else:
         for _ in inputs:
             top.sim_tick()
-            tr.append([len(top.log), top.count])
-        tr.append([list(map(str, top.log)), list(map(str, top.w.seen))])
+            tr.append([len(top.log), top.count] + [(_val(o) if o is not None else "<missing>") for o in sobj])
+        tr.append([list(map(str, top.log)), list(map(str, top.w.seen)), list(map(str, top.w.tags)),
+                   list(map(str, top.tags))])
     return tr
 
 
@@ -713,23 +822,26 @@ def range_overlaps(model):
 
 def extract_model(fam, extra_cfgs=()):
     """Harness part and per-class local parts, extracted from designs built from scratch: every
-    class alone in every position (the other positions hold the first class of the palette),
-    every uniform configuration and `extra_cfgs`.
+    class alone in every position it fits (the other positions hold their base class), every uniform
+    configuration and `extra_cfgs`.
 
     Local[c] = the entries below a position that are there in EVERY position holding c (written
-    relative to the position); everything else (harness-owned entries, and entries below a position
-    that only exist because the harness mentions them, e.g. a slice of a child's port) is the
-    harness part and must be the same for every configuration: NotCompositional otherwise."""
+    relative to the position).  Harness = the entries owned by the harness, and the entries below a
+    position that some class sitting there does not declare itself (they exist only because the
+    harness, or the class of the hosting position, mentions them: a slice / field of a child's
+    port).  A class MAY declare such an entry too (Meta is a union).  The decomposition is then checked
+    against every design built: NotCompositional unless
+        projection(design(cfg)) = Harness + UNION Local[cfg[p]] renamed to p."""
     import json
-    classes = list(fam.palette)
-    base = classes[0]
+    classes = list(fam.classes)
     cfgs = []
-    for c in classes:
-        cfgs.append({p: c for p in fam.positions})
-        for p in fam.positions:
-            g = {q: base for q in fam.positions}
+    for p in fam.positions:
+        for c in fam.palof[p]:
+            g = dict(fam.base)
             g[p] = c
             cfgs.append(g)
+    for c in classes:
+        cfgs.append(fam.uniform(c, c))
     cfgs.extend(extra_cfgs)
     built = []
     for g in cfgs:
@@ -750,21 +862,31 @@ def extract_model(fam, extra_cfgs=()):
             else:
                 for f in PRIMARY:
                     local[c][f] &= parts[p][f]
-    harness = None
+
+    def absolute(k, p):
+        return json.dumps([[p, x[1]] if x[0] == "$" else x for x in json.loads(k)])
+    harness = {f: set() for f in PRIMARY}
     for g, parts in built:
-        h = {f: set(parts[""][f]) for f in PRIMARY}
-        for p in fam.positions:
-            for f in PRIMARY:
+        for f in PRIMARY:
+            harness[f] |= parts[""][f]
+            for p in fam.positions:
                 for k in parts[p][f] - local[g[p]][f]:
-                    h[f].add(json.dumps([[p, x[1]] if x[0] == "$" else x for x in json.loads(k)]))
-        if harness is None:
-            harness = h
-        elif h != harness:
-            bad = {f: sorted(h[f] ^ harness[f])[:4] for f in PRIMARY if h[f] != harness[f]}
-            raise NotCompositional("harness part depends on the configuration %s: %s" % (g, bad))
+                    harness[f].add(absolute(k, p))
+    for g, parts in built:
+        for f in PRIMARY:
+            full = set(parts[""][f])
+            meta = set(harness[f])
+            for p in fam.positions:
+                full |= {absolute(k, p) for k in parts[p][f]}
+                meta |= {absolute(k, p) for k in local[g[p]][f]}
+            if full != meta:
+                raise NotCompositional("configuration %s, field %s: design - Meta = %s, Meta - design = %s"
+                                       % (g, f, sorted(full - meta)[:4], sorted(meta - full)[:4]))
     m = {"fields": list(PRIMARY),
          "harness": {f: sorted(json.loads(k) for k in harness[f]) for f in PRIMARY},
-         "local": {c: {f: sorted(json.loads(k) for k in local[c][f]) for f in PRIMARY} for c in classes}}
+         "local": {c: {f: sorted(json.loads(k) for k in local[c][f]) for f in PRIMARY} for c in classes},
+         "palof": {p: list(fam.palof[p]) for p in fam.positions},
+         "below": {p: list(fam.below[p]) for p in fam.positions}}
     m["rovl"] = range_overlaps(m)
     return m
 
@@ -787,15 +909,19 @@ def _where(exc):
     import os
     import traceback
     tb = traceback.extract_tb(exc.__traceback__)
-    inner = outer = None
+    inner = outer = prev = None
     for fr in tb:
         if "/pymtl3/" in fr.filename:
             w = "%s.%s" % (os.path.basename(fr.filename)[:-3], fr.name)
+            if inner is not None and inner != w:
+                prev = inner
             inner = w
             if outer is None and "/pymtl3/passes/" in fr.filename and fr.name != "__call__":
                 outer = w
     if inner is None:
         return "?"
+    if outer is None:           # not inside a pass: the caller of the innermost function tells which check / step it was
+        outer = prev
     return inner if outer in (None, inner) else "%s>%s" % (outer, inner)
 
 
@@ -810,20 +936,21 @@ def fresh(fam, cfg, inputs):
     if r is None:
         if len(_FRESH) > 4000:
             _FRESH.clear()
-        P, kinds = project(fam.build(cfg))
-        r = {"P": P, "kinds": kinds, "sim": None}
+        top = fam.build(cfg)
+        P, kinds = project(top)
+        r = {"P": P, "kinds": kinds, "sim": {}, "sigs": signal_names(top), "pure": is_pure_rtl(top)}
         _FRESH[k] = r
     return r
 
 
-def fresh_sim(fam, cfg, inputs):
+def fresh_sim(fam, cfg, inputs, pg="DefaultPassGroup"):
     r = fresh(fam, cfg, inputs)
-    if r["sim"] is None:
+    if pg not in r["sim"]:
         try:
-            r["sim"] = ("ok", simulate(fam, fam.build(cfg), inputs))
+            r["sim"][pg] = ("ok", simulate(fam, fam.build(cfg), inputs, pg, r["sigs"], r["pure"]))
         except Exception as e:          # noqa: BLE001
-            r["sim"] = ("raises", _exc_info(e))
-    return r["sim"]
+            r["sim"][pg] = ("raises", _exc_info(e))
+    return r["sim"][pg]
 
 
 def observation(fam, P):
@@ -852,28 +979,70 @@ def check_state(fam, top, cfg, removed, inputs):
     return {"findings": findings, "reach": reach, "obs": observation(fam, P), "P": P, "rawclauses": rawclauses}
 
 
-def replay_history(famname, init, steps, inputs, check="last", sim=True):
+def _column(fam, top_outs, sigs, j):
+    return ("out[%d]" % j) if j < top_outs else sigs[j - top_outs] if j - top_outs < len(sigs) else "?"
+
+
+def compare_sim(fam, ref, got, sigs, pg):
+    """-> record {kind: same | differs | raises | fresh-raises | both-raise, pg, ...}"""
+    if ref[0] == "ok" and got[0] == "ok":
+        if ref[1] == got[1]:
+            return {"kind": "same", "pg": pg}
+        j = next((i for i, (a, b) in enumerate(zip(ref[1], got[1])) if a != b), min(len(ref[1]), len(got[1])))
+        a = ref[1][j] if j < len(ref[1]) else None
+        b = got[1][j] if j < len(got[1]) else None
+        cols = []
+        if isinstance(a, list) and isinstance(b, list) and len(a) == len(b) and len(a) > len(sigs):
+            nout = len(a) - len(sigs)
+            cols = [_column(fam, nout, sigs, i) for i in range(len(a)) if a[i] != b[i]]
+            a, b = [a[i] for i in range(len(a)) if a[i] != b[i]], [b[i] for i in range(len(b)) if a[i] != b[i]]
+        return {"kind": "differs", "pg": pg, "cycle": j, "where": cols[:8], "fresh": a[:8] if isinstance(a, list) else a,
+                "replaced": b[:8] if isinstance(b, list) else b}
+    if ref[0] == "ok":
+        return dict(got[1], kind="raises", pg=pg)
+    if got[0] == "ok":
+        return dict(ref[1], kind="fresh-raises", pg=pg)
+    return {"kind": "both-raise", "pg": pg, "fresh": ref[1], "replaced": got[1]}
+
+
+def _prebuilt(fam, init, steps):
+    """the objects of all replace_component_with_obj steps, built before the design itself"""
+    g, a = dict(init), fam.init_arg(init)
+    objs = []
+    for (k, p, c) in steps:
+        objs.append(fam.new_obj(p, c, g) if k == "ReplaceWithObj" else None)
+        g, a = fam.step(g, a, k, p, c)
+    return objs
+
+
+def replay_history(famname, init, steps, inputs, check="last", sim=True, pre=False,
+                   pgs=None):
     """Replay one history with the real replace_component / replace_component_with_obj.
 
     check = "last": metadata / sweep / observation after the last step only (every prefix of an
     enumerated history is a history of its own); "all": after every step.
+    pre: the objects handed to replace_component_with_obj are all built before the design is.
+    The final design is simulated under every pass group of `pgs` (the history is re-executed for
+    each, a simulated design cannot be reused) and compared, outputs and every signal, with the
+    design built from scratch.
     Returns a JSON-able record."""
     fam = family(famname)
-    cfg = dict(init)
+    pgs = fam.pass_groups if pgs is None else [p for p in pgs if p in fam.pass_groups]
+    cfg, arg = dict(init), fam.init_arg(init)
     rec = {"fam": famname, "init": dict(init), "steps": [list(s) for s in steps], "checks": [],
-           "raised": None, "sim": None, "cfg": None}
+           "raised": None, "sim": None, "cfg": None, "pre": bool(pre)}
+    objs = _prebuilt(fam, init, steps) if pre else [None] * len(steps)
     top = fam.build(cfg)
     removed = []
     for i, (kind, pos, cls) in enumerate(steps):
+        g2, a2 = fam.step(cfg, arg, kind, pos, cls)
         try:
-            removed += apply_step(fam, top, kind, pos, cls)
+            removed += apply_step(fam, top, kind, pos, cls, cfg, objs[i])
         except Exception as e:          # noqa: BLE001
             info = _exc_info(e)
             info["step"] = i + 1
-            g = dict(cfg)
-            g[pos] = cls
             try:
-                fam.build(g)
+                fam.build(g2)
                 info["fresh_builds"] = True
             except Exception as e2:     # noqa: BLE001
                 info["fresh_builds"] = False
@@ -881,7 +1050,7 @@ def replay_history(famname, init, steps, inputs, check="last", sim=True):
             rec["raised"] = info
             rec["cfg"] = cfg
             return rec
-        cfg[pos] = cls
+        cfg, arg = g2, a2
         if check == "all" or (check == "last" and i == len(steps) - 1):
             c = check_state(fam, top, cfg, removed, inputs)
             c.pop("P")
@@ -892,23 +1061,30 @@ def replay_history(famname, init, steps, inputs, check="last", sim=True):
         if any(cfg[p] in fam.placeholders for p in cfg):
             rec["sim"] = {"kind": "skipped-placeholder"}
         else:
-            ref = fresh_sim(fam, cfg, inputs)
-            try:
-                got = ("ok", simulate(fam, top, inputs))
-            except Exception as e:      # noqa: BLE001
-                got = ("raises", _exc_info(e))
-            if ref[0] == "ok" and got[0] == "ok":
-                if ref[1] == got[1]:
-                    rec["sim"] = {"kind": "same"}
-                else:
-                    j = next(i for i, (a, b) in enumerate(zip(ref[1], got[1])) if a != b)
-                    rec["sim"] = {"kind": "differs", "cycle": j, "fresh": ref[1][j], "replaced": got[1][j]}
-            elif ref[0] == "ok":
-                rec["sim"] = {"kind": "raises", **got[1]}
-            elif got[0] == "ok":
-                rec["sim"] = {"kind": "fresh-raises", **ref[1]}
-            else:
-                rec["sim"] = {"kind": "both-raise", "fresh": ref[1], "replaced": got[1]}
+            F = fresh(fam, cfg, inputs)
+            done = []
+            for n, pg in enumerate(pgs):
+                ref = fresh_sim(fam, cfg, inputs, pg)
+                if ref[0] != "ok" and n > 0:
+                    continue                # this pass group cannot simulate the design built from scratch
+                try:
+                    if n > 0:               # a second copy of the mutated design
+                        objs = _prebuilt(fam, init, steps) if pre else [None] * len(steps)
+                        top = fam.build(init)
+                        g, a = dict(init), fam.init_arg(init)
+                        for i, (kind, pos, cls) in enumerate(steps):
+                            apply_step(fam, top, kind, pos, cls, g, objs[i])
+                            g, a = fam.step(g, a, kind, pos, cls)
+                    got = ("ok", simulate(fam, top, inputs, pg, F["sigs"], F["pure"]))
+                except Exception as e:      # noqa: BLE001
+                    got = ("raises", _exc_info(e))
+                r = compare_sim(fam, ref, got, F["sigs"], pg)
+                done.append(pg)
+                if r["kind"] != "same" or n == len(pgs) - 1:
+                    rec["sim"] = r
+                    break
+                rec["sim"] = r
+            rec["sim"]["pgs"] = done
     return rec
 
 
@@ -920,7 +1096,8 @@ def run_chunk(args):
     out, table = [], {}
     for j in jobs:
         rec = replay_history(j["fam"], j["init"], j["steps"], inputs_by_fam[j["fam"]],
-                             check=j.get("check", "last"), sim=j.get("sim", True))
+                             check=j.get("check", "last"), sim=j.get("sim", True), pre=j.get("pre", False),
+                             pgs=j.get("pgs"))
         rec["id"] = j["id"]
         for c in rec["checks"]:
             o = c["obs"]
